@@ -80,6 +80,8 @@ def samp_a(repo: Repo) -> List[Ob]:
         if not calls:
             continue
         found[fi.qualname] = len(calls)
+        # a reused / stale key couples draws that must be independent: also a Born-rule (C04) resp. POVM (C09) defect
+        P = ("C14", "C09") if fi.node.name == "measure_POVM" else ("C14", "C04") if fi.node.name == "measure" else ("C14",)
         _, limports, _ = local_bindings(fi.node)
         params = set(fi.params)
         cfg = CFG(fi.node)
